@@ -33,6 +33,15 @@ func fieldName(x *ssa.FieldAddr) string {
 
 const verifRoot = "/verif"
 
+// outRoot: where evidence and replay files go; GOVC_OUT redirects them for development runs on scratch trees, so that
+// such runs do not overwrite the evidence of the real tree.
+func outRoot() string {
+	if r := os.Getenv("GOVC_OUT"); r != "" {
+		return r
+	}
+	return verifRoot
+}
+
 type knownFinding struct {
 	Prop   string
 	Oblig  string
@@ -196,6 +205,11 @@ func cmdCheck(args []string) int {
 	e := newEngine(l)
 	e.curProp = prop
 	e.tier = *tier
+	e.checkBudget = 600
+	if *tier == "thorough" {
+		e.checkBudget = 1800
+	}
+	e.checkDeadline = time.Now().Add(time.Duration(e.checkBudget) * time.Second)
 	fmt.Printf("govc: loaded %d packages; %d contracts bound\n", len(l.spkgs), len(l.bound))
 	inconclusive := []string{}
 	for _, u := range unbound {
@@ -268,6 +282,11 @@ func cmdCheck(args []string) int {
 	}
 	genTime := time.Since(start).Seconds()
 	solveStart := time.Now()
+	solveBudget := 900
+	if *tier == "thorough" {
+		solveBudget = 2700
+	}
+	solveDeadline = time.Now().Add(time.Duration(solveBudget) * time.Second)
 	dischargeAll(e.obligs, dir, *timeout, 8)
 	solveWall := time.Since(solveStart).Seconds()
 	groups := groupObligations(e.obligs)
@@ -442,9 +461,9 @@ func cmdCheck(args []string) int {
 			"integers":                 "mathematical (SMT Int); field ops mod R, unsigned ops mod 2^N",
 			"inconclusive":             inconclusive,
 		}}
-	os.MkdirAll(filepath.Join(verifRoot, "evidence"), 0o755)
+	os.MkdirAll(filepath.Join(outRoot(), "evidence"), 0o755)
 	b, _ := json.MarshalIndent(ev, "", " ")
-	if err := os.WriteFile(filepath.Join(verifRoot, "evidence", prop+".json"), b, 0o644); err != nil {
+	if err := os.WriteFile(filepath.Join(outRoot(), "evidence", prop+".json"), b, 0o644); err != nil {
 		fatalf("write evidence: %v", err)
 	}
 	return exit
